@@ -206,7 +206,9 @@ class _ReadSourceGenerator:
                 bits_remaining -= field.bits
 
                 yield from flush()
-                yield from align_to_field(field)
+                if bits_rollover:
+                    # A field that continues the current unit doesn't occupy a position of its own
+                    yield from align_to_field(field)
                 yield from self._generate_bits(field)
 
             # Everything else - basic and composite types (and arrays of them)
